@@ -316,8 +316,13 @@ def r02_4(prog, out):
                     found_region |= bi.cfg.edge_dominated(sw, pt)
             # a second lookup of the same id under the `found` arm of an earlier one (get_mut .. then remove) asks nothing new
             _absent, present_all = __import__("mapstate").regions(prog, bi, messages)
-            if not found and e.bb in present_all:
-                continue
+            if e.bb in present_all and e.bb not in {x for (sw0, p0, a0) in sws for x in ()}:
+                # (whether or not its own result is matched again: `if let Some(m) = map.remove(&id)` inside
+                # `let Some(m) = map.get_mut(&id) else { continue }` is the same question asked twice)
+                earlier = [x for x in prog.effects(b.id) if not x.chain and x.touches(messages) and x.bb != e.bb and x.kind in (L.REMOVE_KINDS | {"handle", "read"})
+                           and bi.cfg.dominates(x.bb, e.bb)]
+                if earlier:
+                    continue
             ks = Slicer(prog).of(b.id, t.args[1]) if len(t.args) > 1 else None
             if ks is not None and any("BTreeSet" in c for c in ks.calls):
                 continue   # keyed by an entry of the schedule itself (expiry), not by a client-supplied id
@@ -597,7 +602,7 @@ def r02_7(prog, out):
     facing = set()
     for h in prog.handlers:
         if h.root is not None:
-            facing |= {c for c in prog.cone(h.root, follow=("closure", "poll")) if not c.startswith("crate::api::parser::")}
+            facing |= {c for c in prog.cone(h.root, follow=("closure", "poll", "spawn", "spawn-joinset")) if not c.startswith("crate::api::parser::")}
     for b in prog.facts.lib_bodies():
         if b.id == pa or (b.kind == "Closure" and not b.coroutine) or b.id not in facing:
             continue
